@@ -1,6 +1,8 @@
 (* Reader family, C21: the position annotations the reader puts on models are well nested
-   (a child lies within its parent) and the items of every sequence are in source order; the one
-   exception to the order, by design, is the model of "#^".  For ALL texts and all oracles whose
+   (a child lies within its parent), the items of every sequence are strictly in source order -- the one
+   exception, by design, is the model of the annotate sugar -- and the parts of every f-string and the
+   children of every replacement field are in source order in the weak sense (starts and ends do not go
+   backwards; neighbouring parts share their delimiting brace).  For ALL texts and all oracles whose
    fill_pos is [At].  Positions are remaining-input lengths (larger = earlier in the text). *)
 From HyV Require Import Base.Text Reader.Syntax Gen.ReaderTables Reader.Model Reader.Progress Reader.Mono Reader.Shape Reader.Suffix Reader.Extend Reader.Cst.
 From Coq Require Import Lia.
@@ -50,6 +52,15 @@ Fixpoint ordered (l : list tree) : Prop :=
   | x :: r => match r with y :: _ => before x y | [] => True end /\ ordered r
   | [] => True
   end.
+(* the parts of an f-string (and the children of a replacement field): starts and ends do not go
+   backwards (neighbouring regions share their delimiting brace, and a debugging text shares the start
+   of its field, so the strict order of sequences does not apply) *)
+Definition beforew (x y : tree) : Prop :=
+  match x, y with At ax bx _, At ay by' _ => (ay <= ax)%nat /\ (by' <= bx)%nat | _, _ => True end.
+Definition okhd (x : tree) (l : list tree) : Prop := match l with y :: _ => beforew x y | [] => True end.
+Fixpoint ordw (l : list tree) : Prop := match l with x :: r => okhd x r /\ ordw r | [] => True end.
+Definition le_top (n : nat) (t : tree) : Prop := match t with At a _ _ => (a <= n)%nat | _ => True end.
+
 (* the one exception, by design: the model of "#^" lists the target before the type *)
 Definition is_annotate (ts : list tree) : Prop := exists x y, ts = [Sym t_annotate; x; y].
 Fixpoint ord (t : tree) : Prop :=
@@ -57,8 +68,8 @@ Fixpoint ord (t : tree) : Prop :=
   | At _ _ t' => ord t'
   | Seq _ ts => (ordered ts \/ is_annotate ts)
                 /\ (fix go (l : list tree) : Prop := match l with [] => True | x :: r => ord x /\ go r end) ts
-  | FStr _ _ ts => (fix go (l : list tree) : Prop := match l with [] => True | x :: r => ord x /\ go r end) ts
-  | FComp _ _ _ ts => (fix go (l : list tree) : Prop := match l with [] => True | x :: r => ord x /\ go r end) ts
+  | FStr _ _ ts => ordw ts /\ (fix go (l : list tree) : Prop := match l with [] => True | x :: r => ord x /\ go r end) ts
+  | FComp _ _ _ ts => ordw ts /\ (fix go (l : list tree) : Prop := match l with [] => True | x :: r => ord x /\ go r end) ts
   | _ => True
   end.
 Fixpoint ordl (l : list tree) : Prop := match l with [] => True | x :: r => ord x /\ ordl r end.
@@ -68,10 +79,18 @@ Proof.
     by (induction l as [|x r IH]; simpl; [reflexivity|rewrite IH; reflexivity]).
   simpl. rewrite E. reflexivity.
 Qed.
-Lemma ord_fstr a b ts : ord (FStr a b ts) = ordl ts.
-Proof. simpl. induction ts as [|x r IH]; simpl; [reflexivity|]. rewrite IH. reflexivity. Qed.
-Lemma ord_fcomp a b c ts : ord (FComp a b c ts) = ordl ts.
-Proof. simpl. induction ts as [|x r IH]; simpl; [reflexivity|]. rewrite IH. reflexivity. Qed.
+Lemma ord_fstr a b ts : ord (FStr a b ts) = (ordw ts /\ ordl ts).
+Proof.
+  assert (E : forall l, (fix go (l : list tree) : Prop := match l with [] => True | x :: r => ord x /\ go r end) l = ordl l)
+    by (induction l as [|x r IH]; simpl; [reflexivity|rewrite IH; reflexivity]).
+  simpl. rewrite E. reflexivity.
+Qed.
+Lemma ord_fcomp a b c ts : ord (FComp a b c ts) = (ordw ts /\ ordl ts).
+Proof.
+  assert (E : forall l, (fix go (l : list tree) : Prop := match l with [] => True | x :: r => ord x /\ go r end) l = ordl l)
+    by (induction l as [|x r IH]; simpl; [reflexivity|rewrite IH; reflexivity]).
+  simpl. rewrite E. reflexivity.
+Qed.
 Lemma ordl_app l1 l2 : ordl (l1 ++ l2) <-> ordl l1 /\ ordl l2.
 Proof. induction l1 as [|x r IH]; simpl; [tauto|]. rewrite IH. tauto. Qed.
 Lemma ordl_rev l : ordl (rev l) <-> ordl l.
@@ -87,22 +106,96 @@ Proof.
   unfold before. destruct x; simpl; auto. destruct (top_a y); auto. simpl in W1. lia.
 Qed.
 
+(* ---- the weak order ---- *)
+Lemma beforew_noat_r x y : top_a y = None -> beforew x y.
+Proof. destruct x; simpl; auto. destruct y; simpl; auto. discriminate. Qed.
+Fixpoint last_opt (l : list tree) : option tree :=
+  match l with [] => None | a :: r => match r with [] => Some a | _ => last_opt r end end.
+Definition oklast (l1 l2 : list tree) : Prop := match last_opt l1 with Some x => okhd x l2 | None => True end.
+Lemma ordw_app l1 : forall l2, ordw (l1 ++ l2) <-> ordw l1 /\ ordw l2 /\ oklast l1 l2.
+Proof.
+  unfold oklast. induction l1 as [|a l1 IH]; intros l2; [simpl; tauto|].
+  destruct l1 as [|b l1'].
+  - simpl. tauto.
+  - change ((a :: b :: l1') ++ l2) with (a :: (b :: l1') ++ l2).
+    change (ordw (a :: (b :: l1') ++ l2)) with (okhd a ((b :: l1') ++ l2) /\ ordw ((b :: l1') ++ l2)).
+    rewrite IH. change (last_opt (a :: b :: l1')) with (last_opt (b :: l1')).
+    change (ordw (a :: b :: l1')) with (okhd a (b :: l1') /\ ordw (b :: l1')). simpl okhd. tauto.
+Qed.
+Lemma wnl_last hi lo l x : wnl hi lo l -> last_opt l = Some x -> wn hi lo x.
+Proof.
+  induction l as [|a r IH]; [discriminate|]. intros [W1 W2] E. destruct r as [|b r'].
+  - inversion E; subst. exact W1.
+  - apply IH; [exact W2|exact E].
+Qed.
+(* joining a list whose elements end at or after lo with one whose first element starts at or before lo *)
+Lemma ordw_join hi lo hi' lo' l1 l2 : ordw l1 -> ordw l2 -> wnl hi lo l1 -> wnl hi' lo' l2 ->
+  (match l2 with y :: _ => le_top lo y | [] => True end) -> ordw (l1 ++ l2).
+Proof.
+  intros O1 O2 W1 W2 T. apply ordw_app. split; [exact O1|split; [exact O2|]]. unfold oklast.
+  destruct (last_opt l1) as [x|] eqn:E; [|exact I]. destruct l2 as [|y l2']; [exact I|]. simpl.
+  pose proof (wnl_last _ _ _ _ W1 E) as Wx. destruct W2 as [Wy _].
+  unfold beforew. destruct x; auto. destruct y; auto. simpl in *. lia.
+Qed.
+
+(* FString.__new__'s joining of adjacent strings keeps the weak order *)
+Lemma okhd_flush x grp : okhd x (rev grp) -> okhd x (flush_group grp).
+Proof.
+  destruct grp as [|a [|b g]]; simpl; auto. intros _. destruct x; simpl; auto.
+Qed.
+Lemma okhd_app_nonempty x l1 l2 : l1 <> [] -> okhd x (l1 ++ l2) <-> okhd x l1.
+Proof. destruct l1; [congruence|]. simpl. tauto. Qed.
+Lemma join_go_okhd x : forall ts grp, okhd x (rev grp ++ ts) -> okhd x (join_go grp ts).
+Proof.
+  induction ts as [|t r IH]; intros grp H; simpl.
+  - rewrite app_nil_r in H. apply okhd_flush. exact H.
+  - destruct (str_val t).
+    + apply IH. simpl. rewrite <- app_assoc. exact H.
+    + destruct grp as [|a [|b g]].
+      * simpl in *. exact H.
+      * simpl in *. exact H.
+      * simpl. destruct x; simpl; auto.
+Qed.
+Lemma flush_last grp : match last_opt (flush_group grp) with
+                       | Some z => (exists a, grp = [a] /\ z = a) \/ top_a z = None
+                       | None => grp = [] end.
+Proof. destruct grp as [|a [|b g]]; simpl; auto. left. exists a. auto. Qed.
+Lemma join_go_ordw : forall ts grp, ordw (rev grp ++ ts) -> ordw (join_go grp ts).
+Proof.
+  induction ts as [|t r IH]; intros grp H; simpl.
+  - destruct grp as [|a [|b g]]; simpl; auto.
+  - destruct (str_val t).
+    + apply IH. simpl. rewrite <- app_assoc. exact H.
+    + apply ordw_app in H. destruct H as [H1 [H2 H3]]. simpl in H2. destruct H2 as [H2a H2b].
+      apply ordw_app. split; [|split].
+      * destruct grp as [|a [|b g]]; simpl; auto.
+      * simpl. split; [apply (join_go_okhd t r []); exact H2a|apply (IH []); exact H2b].
+      * unfold oklast in *. pose proof (flush_last grp) as F. destruct (last_opt (flush_group grp)) as [z|]; [|exact I].
+        destruct F as [[a [-> ->]]|F].
+        -- simpl in H3. exact H3.
+        -- simpl. destruct z; simpl; auto. discriminate.
+Qed.
+Lemma join_strs_ordw ts : ordw ts -> ordw (join_strs ts).
+Proof. intros H. apply (join_go_ordw ts []). exact H. Qed.
+
 Definition lt_top (n : nat) (t : tree) : Prop := match top_a t with Some a => (a < n)%nat | None => True end.
 
 (* what a mode's accumulator / start argument must satisfy on entry *)
 Definition modeinv (H : nat) (s : text) (md : mode) : Prop :=
   match md with
   | MSeq _ acc => wnl H (length s) acc /\ ordl acc /\ ordered (rev acc)
-  | MParts _ _ _ start acc => wnl H (length s) acc /\ ordl acc /\ (length s <= start <= H)%nat
+  | MParts _ _ _ start acc => wnl H (length s) acc /\ ordl acc /\ ordw (rev acc) /\ Forall (le_top start) acc /\ (length s <= start)%nat
   | _ => True
   end.
+(* the parts an f-string mode returns start at or after the position the mode was entered at *)
+Definition bound (md : mode) (s : text) : nat := match md with MParts _ _ _ start _ => start | _ => length s end.
 (* what a result satisfies: trees lie between H and the remainder; items of a sequence are in source order *)
-Definition resinv (H : nat) (s : text) (x : res) : Prop :=
+Definition resinv (H : nat) (s : text) (md : mode) (x : res) : Prop :=
   match x with
   | RTry (Some m) r => wn H (length r) m /\ ord m /\ lt_top (length s) m
   | ROne m r => wn H (length r) m /\ ord m /\ lt_top (length s) m
   | RSeq ms r => wnl H (length r) ms /\ ordl ms /\ ordered ms
-  | RParts ps r => wnl H (length r) ps /\ ordl ps
+  | RParts ps r => wnl H (length r) ps /\ ordl ps /\ ordw ps /\ Forall (le_top (bound md s)) ps
   | _ => True
   end.
 (* results of handler bodies, relative to the input r after the key *)
@@ -141,7 +234,7 @@ Section W.
   Variable orc : oracles.
   Hypothesis Hmk : forall a b t, mk orc a b t = At a b t.
   Variable rec : mode -> text -> res.
-  Hypothesis Hrec : forall H md s, (length s <= H)%nat -> modeinv H s md -> resinv H s (rec md s).
+  Hypothesis Hrec : forall H md s, (length s <= H)%nat -> modeinv H s md -> resinv H s md (rec md s).
   Variable f : nat.
   Hypothesis Hgood : forall md s, good_s s (need md s < f)%nat (rec md s).
   Hypothesis Hshape : forall md s, shape md (rec md s).
@@ -152,15 +245,16 @@ Section W.
   Ltac call H md r :=
     let HI := fresh "HI" in let HS := fresh "HS" in let HP := fresh "HP" in
     pose proof (Hrec H md r) as HI; pose proof (Hsh md r) as HS; pose proof (Hshape md r) as HP;
-    destruct (rec md r); cbn [bodyinv resinv shrinks shape] in *; try contradiction; try exact I.
+    destruct (rec md r); cbn [bodyinv resinv shrinks shape bound] in *; try contradiction; try exact I.
 
   Lemma string_lit_inv prefix r : bodyinv r (string_lit orc rec prefix r).
   Proof.
     unfold string_lit. destruct (negb (prefix_ok prefix)); [exact I|].
     destruct (mem c_f prefix || mem c_t prefix).
     - call (length r) (MParts (ClQuote (mem c_r prefix) (mem c_b prefix) false) (mem c_r prefix) (negb (mem c_f prefix)) (length r) []) r.
-      destruct HI as [W O]; [lia|simpl; repeat split; auto; lia|].
-      rewrite wn_fstr, ord_fstr. split; [apply join_go_wnl; [exact W|exact I]|apply join_go_ordl; [exact O|exact I]].
+      destruct HI as [W [O [Ow _]]]; [lia|simpl; repeat split; auto; lia|].
+      rewrite wn_fstr, ord_fstr. split; [apply join_go_wnl; [exact W|exact I]|].
+      split; [apply join_strs_ordw; exact Ow|apply join_go_ordl; [exact O|exact I]].
     - destruct (scan _ _ _ _ _ _); try exact I. destruct (finish_chunk _ _ _ _); [|exact I]. destruct (mem c_b prefix); simpl; auto.
   Qed.
 
@@ -178,9 +272,10 @@ Section W.
     clearbody r3 r2.
     destruct (is_f_delim d).
     - call (length r3) (MParts (ClDelim d None) true false (length r3) []) r3.
-      destruct HI as [W O]; [lia|simpl; repeat split; auto; lia|].
+      destruct HI as [W [O [Ow _]]]; [lia|simpl; repeat split; auto; lia|].
       destruct (existsb _ _); [exact I|]. cbn [bodyinv]. rewrite wn_fstr, ord_fstr.
-      split; [apply join_go_wnl; [eapply wnl_mono; eauto; lia|exact I]|apply join_go_ordl; [exact O|exact I]].
+      split; [apply join_go_wnl; [eapply wnl_mono; eauto; lia|exact I]|].
+      split; [apply join_strs_ordw; exact Ow|apply join_go_ordl; [exact O|exact I]].
     - destruct (scan _ _ _ _ _ _); try exact I. destruct (finish_chunk _ _ _ _); [|exact I]. destruct (contains _ _); simpl; auto.
   Qed.
 
@@ -255,7 +350,7 @@ Section W.
   Lemma wn_at H a b m : wn H b (At a b m) <-> ((b <= a)%nat /\ (a <= H)%nat) /\ wn a b m.
   Proof. simpl. split; intros [A B]; split; auto; lia. Qed.
 
-  Lemma try_body_inv H s : (length s <= H)%nat -> resinv H s (try_body orc rec s).
+  Lemma try_body_inv H s : (length s <= H)%nat -> resinv H s MTry (try_body orc rec s).
   Proof.
     intros LH. unfold try_body. pose proof (slurp_len s) as L. destruct (slurp s) as [|c r].
     { unfold convert, convert_with. destruct (first_handler mro_prem try_handlers) as [[|]|]; exact I. }
@@ -283,7 +378,7 @@ Section W.
   Lemma lt_top_mono n n' t : lt_top n t -> (n <= n')%nat -> lt_top n' t.
   Proof. unfold lt_top. destruct (top_a t); auto; lia. Qed.
 
-  Lemma one_body_inv H s : (length s <= H)%nat -> resinv H s (one_body rec s).
+  Lemma one_body_inv H s : (length s <= H)%nat -> resinv H s MOne (one_body rec s).
   Proof.
     intros LH. unfold one_body. call H MTry s. destruct m as [m|].
     - exact (HI LH I).
@@ -292,11 +387,9 @@ Section W.
       destruct HI2 as [W [O T]]; [lia|exact I|]. repeat split; auto. eapply lt_top_mono; eauto; lia.
   Qed.
 
-  Lemma resinv_seq_indep H s s' ms r : resinv H s (RSeq ms r) -> resinv H s' (RSeq ms r).
-  Proof. auto. Qed.
 
   Lemma seq_body_inv H closer acc s : (length s <= H)%nat -> modeinv H s (MSeq closer acc) ->
-    resinv H s (seq_body rec closer acc s).
+    resinv H s (MSeq closer acc) (seq_body rec closer acc s).
   Proof.
     intros LH [W [O S]]. unfold seq_body. pose proof (slurp_len s) as L.
     destruct (at_closer closer (slurp s)).
@@ -316,57 +409,92 @@ Section W.
       apply HI2; [lia|]. cbn [modeinv]. split; [eapply wnl_mono; eauto; lia|auto].
   Qed.
 
-  Lemma add_str_wnl H v start b acc lo : wnl H lo acc -> (lo <= b)%nat -> (b <= start)%nat -> (start <= H)%nat ->
-    wnl H lo (add_str orc v start b acc) /\ (ordl acc -> ordl (add_str orc v start b acc)).
+  Lemma Forall_app_iff {A} (P : A -> Prop) l1 l2 : Forall P (l1 ++ l2) <-> Forall P l1 /\ Forall P l2.
+  Proof. apply Forall_app. Qed.
+  Lemma Forall_le_top_mono n n' l : Forall (le_top n) l -> (n <= n')%nat -> Forall (le_top n') l.
+  Proof. intros F L. eapply Forall_impl; [|exact F]. intros t. unfold le_top. destruct t; auto. lia. Qed.
+
+  (* one more literal part in front of the accumulator (which is kept reversed) *)
+  Lemma add_str_inv H v a b acc st : wnl H a acc -> ordl acc -> ordw (rev acc) -> Forall (le_top st) acc ->
+    (b <= a)%nat -> (a <= H)%nat -> (a <= st)%nat ->
+    let acc' := add_str orc v a b acc in
+    wnl H b acc' /\ ordl acc' /\ ordw (rev acc') /\ Forall (le_top st) acc'.
   Proof.
-    intros W A B C. unfold add_str. destruct v; [auto|]. rewrite Hmk. simpl. repeat split; auto.
+    intros W O Ow F L1 L2 L3. unfold add_str. destruct v as [|c v'].
+    - simpl. repeat split; auto. eapply wnl_mono; eauto.
+    - rewrite Hmk. simpl. repeat split; auto; try lia.
+      + eapply wnl_mono; eauto.
+      + apply (ordw_join H a H b (rev acc) [At a b (Str (c :: v') None)]);
+          [exact Ow|simpl; auto|apply wnl_rev; exact W|simpl; repeat split; auto; lia|simpl; lia].
   Qed.
 
   Lemma parts_body_inv H cl rawp tmode start acc s : (length s <= H)%nat -> modeinv H s (MParts cl rawp tmode start acc) ->
-    resinv H s (parts_body orc rec cl rawp tmode start acc s).
+    resinv H s (MParts cl rawp tmode start acc) (parts_body orc rec cl rawp tmode start acc s).
   Proof.
-    intros LH [W [O [S1 S2]]]. unfold parts_body. pose proof (scan_len true rawp _ s cl false [] (le_n _)) as Hl.
+    intros LH [W [O [Ow [F S1]]]]. unfold parts_body. cbv zeta. pose proof (scan_len true rawp _ s cl false [] (le_n _)) as Hl.
     destruct (scan true rawp cl false [] s) as [body cl' rest|body cl' rest| | |]; try exact I; simpl in Hl.
-    - destruct (finish_chunk orc rawp false body) as [v|]; [|exact I]. cbn [resinv].
-      destruct (add_str_wnl H v start (length rest) acc (length rest)) as [A B]; try lia; [eapply wnl_mono; eauto; lia|].
-      split; [apply wnl_rev; exact A|apply ordl_rev; auto].
+    - destruct (finish_chunk orc rawp false body) as [v|]; [|exact I]. cbn [resinv bound].
+      destruct (add_str_inv H v (length s) (length rest) acc start W O Ow F) as [A [B [C D]]]; try lia.
+      split; [apply wnl_rev; exact A|]. split; [apply ordl_rev; exact B|]. split; [exact C|].
+      apply Forall_rev. exact D.
     - destruct (finish_chunk orc rawp false body) as [v|]; [|exact I].
-      call H (MField rawp tmode) rest. destruct HI as [Wf Of]; [lia|exact I|]. rename rest0 into rest'.
-      destruct (add_str_wnl H v start (length rest) acc (length rest')) as [A B]; try lia; [eapply wnl_mono; eauto; lia|].
-      match goal with |- resinv _ _ (rec ?m ?u) => pose proof (Hrec H m u) as HI2; pose proof (Hshape m u) as HP2;
-        destruct (rec m u); cbn [resinv shape] in *; try contradiction; try exact I end.
-      apply HI2; [lia|]. cbn [modeinv]. split; [|split; [|lia]].
-      + apply wnl_app. split; [apply wnl_rev; exact Wf|exact A].
-      + apply ordl_app. split; [apply ordl_rev; exact Of|auto].
+      destruct (add_str_inv H v (length s) (length rest) acc start W O Ow F) as [A [B [C D]]]; try lia.
+      call H (MField rawp tmode) rest. destruct HI as [Wf [Of [Owf Ff]]]; [lia|exact I|]. rename rest0 into rest'.
+      match goal with |- resinv _ _ _ (rec ?m ?u) => pose proof (Hrec H m u) as HI2; pose proof (Hshape m u) as HP2;
+        destruct (rec m u); cbn [resinv shape bound] in *; try contradiction; try exact I end.
+      apply HI2; [lia|]. cbn [modeinv]. split; [|split; [|split; [|split]]].
+      + apply wnl_app. split; [apply wnl_rev; exact Wf|eapply wnl_mono; eauto; lia].
+      + apply ordl_app. split; [apply ordl_rev; exact Of|exact B].
+      + rewrite rev_app_distr, rev_involutive.
+        apply (ordw_join H (length rest) H (length rest')); auto.
+        * apply wnl_rev. exact A.
+        * destruct ps as [|y ys]; [exact I|]. inversion Ff; subst. assumption.
+      + apply Forall_app_iff. split; [apply Forall_rev; eapply Forall_le_top_mono; eauto; lia|exact D].
+      + lia.
   Qed.
 
   Lemma field_after_inv H rawp tmode dbg start values m ft conv s6 :
     (length s6 <= start)%nat -> (start <= H)%nat ->
-    (forall lo, (lo <= length s6)%nat -> wn start lo m) -> ord m ->
-    (forall lo, (lo <= length s6)%nat -> wnl H lo values) -> ordl values ->
-    resinv H s6 (field_after orc rec rawp tmode dbg start values m ft conv s6).
+    (forall lo, (lo <= length s6)%nat -> wn start lo m) -> ord m -> lt_top start m ->
+    (exists b6, (length s6 <= b6)%nat /\ (b6 <= start)%nat /\ (values = [] \/ exists v, values = [At start b6 (Str v None)])) ->
+    match field_after orc rec rawp tmode dbg start values m ft conv s6 with
+    | RParts ps r => wnl H (length r) ps /\ ordl ps /\ ordw ps /\ Forall (le_top start) ps
+    | _ => True
+    end.
   Proof.
-    intros L6 LS Wm Om Wv Ov. unfold field_after. pose proof (slurp_len s6) as L7. destruct (slurp s6) as [|c r]; [exact I|]. simpl in L7.
+    intros L6 LS Wm Om Tm [b6 [Lb1 [Lb2 Hv]]]. unfold field_after. pose proof (slurp_len s6) as L7.
+    destruct (slurp s6) as [|c r]; [exact I|]. simpl in L7.
+    assert (Wv : forall lo, (lo <= length s6)%nat -> wnl H lo values).
+    { intros lo Llo. destruct Hv as [->|[v ->]]; simpl; repeat split; auto; lia. }
+    assert (Ov : ordl values) by (destruct Hv as [->|[v ->]]; simpl; auto).
+    assert (FIN : forall cv fcs b, (b <= length r)%nat -> wnl start b fcs -> ordl fcs -> ordw fcs -> Forall (le_top (length r)) fcs ->
+       let ps := values ++ [mk orc start b (FComp tmode cv ft (m :: fcs))] in
+       wnl H b ps /\ ordl ps /\ ordw ps /\ Forall (le_top start) ps).
+    { intros cv fcs b Lb Wf Of Owf Ff. rewrite Hmk.
+      assert (WF : wn H b (At start b (FComp tmode cv ft (m :: fcs)))).
+      { apply wn_at. split; [lia|]. rewrite wn_fcomp. split; [apply Wm; lia|exact Wf]. }
+      assert (OF : ord (At start b (FComp tmode cv ft (m :: fcs)))).
+      { change (ord (FComp tmode cv ft (m :: fcs))). rewrite ord_fcomp. split; [|simpl; auto].
+        simpl. split; [|exact Owf]. destruct fcs as [|y ys]; [exact I|]. simpl.
+        inversion Ff; subst. destruct Wf as [Wy _]. specialize (Wm (length s6) (le_n _)).
+        unfold beforew, le_top, lt_top in *. destruct m; auto. destruct y; auto. simpl in *. lia. }
+      destruct Hv as [->|[v ->]].
+      - change ([] ++ [At start b (FComp tmode cv ft (m :: fcs))]) with [At start b (FComp tmode cv ft (m :: fcs))].
+        split; [split; [exact WF|exact I]|]. split; [split; [exact OF|exact I]|]. split; [simpl; auto|].
+        constructor; [simpl; lia|constructor].
+      - change ([At start b6 (Str v None)] ++ [At start b (FComp tmode cv ft (m :: fcs))])
+          with [At start b6 (Str v None); At start b (FComp tmode cv ft (m :: fcs))].
+        split; [split; [simpl; repeat split; auto; lia|split; [exact WF|exact I]]|].
+        split; [split; [exact I|split; [exact OF|exact I]]|].
+        split; [simpl; repeat split; auto; lia|].
+        constructor; [simpl; lia|constructor; [simpl; lia|constructor]]. }
     destruct (c =? c_colon).
-    - call start (MParts ClBrace rawp false (length r) []) r. destruct HI as [Wf Of]; [lia|simpl; repeat split; auto; lia|].
-      rename rest into rest'. split.
-      + apply wnl_app. split; [apply Wv; lia|]. rewrite Hmk. split; [|exact I]. apply wn_at. split; [lia|].
-        rewrite wn_fcomp. split; [apply Wm; lia|exact Wf].
-      + apply ordl_app. split; [exact Ov|]. rewrite Hmk. split; [|exact I].
-        match goal with |- ord (At _ _ (FComp ?a ?b ?c ?d)) => change (ord (FComp a b c d)) end.
-        rewrite ord_fcomp. split; assumption.
-    - destruct (c =? c_rbrace); [|exact I]. cbn [resinv]. split.
-      + apply wnl_app. split; [apply Wv; lia|]. rewrite Hmk. split; [|exact I]. apply wn_at. split; [lia|].
-        rewrite wn_fcomp. split; [apply Wm; lia|exact I].
-      + apply ordl_app. split; [exact Ov|]. rewrite Hmk. split; [|exact I].
-        match goal with |- ord (At _ _ (FComp ?a ?b ?c ?d)) => change (ord (FComp a b c d)) end.
-        rewrite ord_fcomp. split; [assumption|exact I].
+    - call start (MParts ClBrace rawp false (length r) []) r.
+      destruct HI as [Wf [Of [Owf Ff]]]; [lia|simpl; repeat split; auto|]. apply FIN; auto. lia.
+    - destruct (c =? c_rbrace); [|exact I]. apply (FIN _ [] (length r)); simpl; auto.
   Qed.
 
-  Lemma resinv_parts_indep H s s' ps r : resinv H s (RParts ps r) -> resinv H s' (RParts ps r).
-  Proof. auto. Qed.
-
-  Lemma field_body_inv H rawp tmode s : (length s <= H)%nat -> resinv H s (field_body orc rec rawp tmode s).
+  Lemma field_body_inv H rawp tmode s : (length s <= H)%nat -> resinv H s (MField rawp tmode) (field_body orc rec rawp tmode s).
   Proof.
     intros LH. unfold field_body. cbv zeta. pose proof (slurp_len s) as L.
     call (length s) MOne (slurp s). rename rest into s2. destruct HI as [Wm [Om Tm]]; [lia|exact I|].
@@ -377,21 +505,21 @@ Section W.
     { unfold s5. destruct dbg; [|exact L2]. pose proof (slurp_len (tl (slurp s2))). destruct (slurp s2); simpl in *; lia. }
     clearbody s5 dbg.
     set (values := if dbg then [mk orc (length s) (length s5) (Str (firstn (length s - length s5) s) None)] else []).
-    assert (Wv : forall lo, (lo <= length s5)%nat -> wnl H lo values).
-    { intros lo Llo. unfold values. destruct dbg; [|exact I]. rewrite Hmk. simpl. repeat split; auto; lia. }
-    assert (Ov : ordl values) by (unfold values; destruct dbg; [rewrite Hmk|]; simpl; auto).
+    assert (Hv : values = [] \/ exists v, values = [At (length s) (length s5) (Str v None)]).
+    { unfold values. destruct dbg; [right; rewrite Hmk; eauto|left; reflexivity]. }
     clearbody values.
     assert (A : forall conv s6, (length s6 <= length s5)%nat ->
-       resinv H s (field_after orc rec rawp tmode dbg (length s) values m (firstn (length (slurp s) - length s2) (slurp s)) conv s6)).
+       resinv H s (MField rawp tmode) (field_after orc rec rawp tmode dbg (length s) values m (firstn (length (slurp s) - length s2) (slurp s)) conv s6)).
     { intros conv s6 L6.
       pose proof (field_after_inv H rawp tmode dbg (length s) values m (firstn (length (slurp s) - length s2) (slurp s)) conv s6) as X.
       destruct (field_after _ _ _ _ _ _ _ _ _ _ _) eqn:E; try exact I; try (exfalso; revert E; unfold field_after;
         destruct (slurp s6) as [|c0 r0]; [discriminate|]; destruct (c0 =? c_colon);
         [pose proof (Hshape (MParts ClBrace rawp false (length r0) []) r0) as Q; destruct (rec _ r0); simpl in Q; try contradiction; discriminate
         |destruct (c0 =? c_rbrace); discriminate]).
-      apply X; try lia; auto.
+      cbn [resinv bound]. apply X; try lia; auto.
       - intros lo Llo. eapply wn_mono_gen; eauto; lia.
-      - intros lo Llo. apply Wv. lia. }
+      - eapply lt_top_mono; eauto.
+      - exists (length s5). repeat split; auto; lia. }
     destruct s5 as [|c r]; [apply A; simpl; lia|].
     destruct (c =? c_bang); [|apply A; lia].
     destruct r as [|c2 r2]; [exact I|]. apply A. simpl. lia.
@@ -399,7 +527,7 @@ Section W.
 End W.
 
 Theorem rd_positions orc (Hmk : forall a b t, mk orc a b t = At a b t) :
-  forall f H md s, (length s <= H)%nat -> modeinv H s md -> resinv H s (rd orc f md s).
+  forall f H md s, (length s <= H)%nat -> modeinv H s md -> resinv H s md (rd orc f md s).
 Proof.
   induction f as [|f IH]; intros H md s LH MI; [exact I|].
   pose proof (rd_good orc f) as G. pose proof (rd_shape orc f) as Sh.
